@@ -4,7 +4,7 @@ PROPS["C18"]["gens"] = ["gen_gridcodes", "gen_math", "gen_osgbconst"]
 PROPS["C18"]["rule"] = (
     "positions: cell edges of each scheme at random level ±0..3 ulp, poles (lat = ±90 exactly, every precision), lon ±180/±540/180+360k exactly/1e17/±inf, "
     "uniform; OSGB: square edges at every precision ±0..3 ulp, the range limits and one ulp inside, tile −1 (−5·10^4 < x < 0: rounded offset), negative "
-    "coordinates from −2^−30 down to the subnormals and the wrap threshold −2^−37 ± 2 ulp, small coordinates of tile 0 at decimal edges (digits beyond 1 m); "
+    "coordinates from −2^−30 down to the subnormals and the carry threshold −2^−37 ± 2 ulp, small coordinates of tile 0 at decimal edges (digits beyond 1 m); "
     "all precisions incl. out-of-range (clamped / rejected); decoder inputs: encoder outputs (random case), single-character mutations (incl. NUL, space, "
     "high-bit bytes, I/O), insert/delete, leading/trailing junk (every white-space character, NUL, punctuation, letters, 0xa0, 0xff), codes of maximal "
     "precision extended by 0..4 digits (over-maximum length), OSGB with white space anywhere and 'IN' prefixes, random alphabet strings up to 30 characters, "
@@ -15,8 +15,9 @@ PROPS["C18"]["rule"] = (
 
 PROPS["C18"]["tolerances"] = {
     "forward strings": "equal to the code of the exact containing cell (exact dyadic arithmetic in Lean); a difference is reported under one of the proved "
-                       "classes: F2-sliver (one rounded product/quotient reaches the next integer), OSGB-offset-sliver (tile −1: x + 10^5 rounded by ≤ 2^−37 m "
-                       "across an edge), OSGB-offset-wrap (−2^−37 ≤ x < 0: offset rounds to the tile size; finding G18-1); anything else is a violation",
+                       "classes: F2-sliver (one rounded product/quotient reaches the next integer), OSGB-offset-sliver (finding F75; tile −1: x + 10^5 rounded by "
+                       "≤ 2^−37 m across an edge, incl. the carry into tile 0 for −2^−37 ≤ x < 0); anything else — in particular a coded square that is not a "
+                       "neighbour of the containing one (the repaired finding F74) — is a violation",
     "reverse values": "bit-equal to the F64 model or within 2^−48 (OSGB beyond 1 m: 2^−46) relative of the exact centre/corner; OSGB down to 1 m: exact",
     "helper functions (resolutions, lengths, precisions, DecimalPrecision)": "exact (bit-equal / equal integers)",
     "OSGB::Forward/Reverse": "x, y bit-equal to projection output + FalseEasting / + north offset (binary64 additions); gamma, k bit-equal to the projection's; "
@@ -37,7 +38,8 @@ PROPS["C18"]["level_text"] = (
     "NaN ↦ INVALID, else encodeInt ∘ scaleCoord), osgb_scale_spec: for every finite coordinate and every precision the 100 km index ⌊x/10^5⌋ is computed exactly "
     "(division by an integer followed by floor has no sliver: divFloor_nosliver) except when the quotient underflows to −0 (class U, |x| ≤ 10^5·2^−1075: adjoining "
     "square); the in-tile offset x − 10^5·n is exact in every tile except for −50 km < x < 0 in tile −1, where it is the correctly rounded sum (IsRN, error ≤ 2^−37 m: "
-    "finding G18-2) and equals the tile size itself for −2^−37 ≤ x < 0 (osgb_offset_wrap: all digits 0, the square 100 km away: finding G18-1); digits down to 1 m are "
+    "finding F75); when that sum rounds to the tile size itself (−2^−37 ≤ x < 0) the carry of the repaired code (finding F74, fixed by f3f841a) moves the point to the "
+    "start of tile 0 (osgb_offset_wrap: for every −2^−37 ≤ x < 0 the result is tile 0, digits 0 — the adjoining square, at most 2^−37 m away); digits down to 1 m are "
     "exact floors of that offset (no rounding effect at all), digits beyond 1 m come from ⌊t'⌋ (exact), t' − ⌊t'⌋ (exact) and ONE rounded multiplication (CellRelQ: class F2). "
     "Corollary osgb_contains_le5: for prec ≤ 5, outside those classes, the coded square is the square containing the position. "
     "ReadGridReference: osgb_accept_iff (accepted ⇔ white space removed: even length in [2, 24], two letters A–Z without I in either case, then digits only), "
